@@ -92,8 +92,8 @@ Qed.
 Lemma header_expiry_lifetime now ex cc e :
   header_expiry now ex cc = e <-> lifetime now ex cc e.
 Proof.
-  unfold header_expiry, lifetime. destruct (cache_control_max_age cc); [|destruct ex];
-    split; intro H; congruence.
+  unfold header_expiry, header_expiry_gen, lifetime.
+  destruct (cache_control_max_age (join_lines cc)); [|destruct ex]; split; intro H; congruence.
 Qed.
 
 Theorem lookup_iff now r a e :
@@ -119,7 +119,7 @@ Proof.
     apply N.ltb_ge in Hl. rewrite Hl.
     apply decode_names in Hn. destruct Hn as (f & Hd & Hb & Ha & Hne).
     rewrite Hd, Hb. rewrite Ha. destruct a as [|c0 a']; [contradiction|].
-    apply header_expiry_lifetime in He. rewrite He. reflexivity.
+    apply header_expiry_lifetime in He. unfold header_expiry in He. rewrite He. reflexivity.
 Qed.
 
 (* the oracle function is the same predicate *)
@@ -141,7 +141,7 @@ Proof.
               apply Z.leb_le; exact Ecl|].
       split; [reflexivity|]. split; [apply N.leb_le; exact El|].
       split; [exists m; repeat split; auto; discriminate|].
-      unfold lifetime. destruct (cache_control_max_age (r_cache_control r)); [reflexivity|].
+      unfold lifetime. destruct (cache_control_max_age (join_lines (r_cache_control r))); [reflexivity|].
       destruct (r_expires r); reflexivity.
     + destruct (r_body_read_ok r) eqn:Er; cbn [negb]; [|discriminate].
       destruct (N.of_nat (length (r_body r)) <=? max_size) eqn:El; cbn [negb]; [|discriminate].
@@ -153,7 +153,7 @@ Proof.
       split; [unfold declared_size_ok; rewrite Ec; intros l' E; discriminate|].
       split; [reflexivity|]. split; [apply N.leb_le; exact El|].
       split; [exists m; repeat split; auto; discriminate|].
-      unfold lifetime. destruct (cache_control_max_age (r_cache_control r)); [reflexivity|].
+      unfold lifetime. destruct (cache_control_max_age (join_lines (r_cache_control r))); [reflexivity|].
       destruct (r_expires r); reflexivity.
   - intros (Hs & Hc & Hr & Hl & (m & Hp & Hok & Hn & Hne) & He).
     apply Z.eqb_eq in Hs. rewrite Hs. cbn [negb].
@@ -163,21 +163,26 @@ Proof.
       apply negb_false_iff. apply Z.leb_le. apply Hc. reflexivity. }
     rewrite Hc'. rewrite Hr. cbn [negb]. apply N.leb_le in Hl. rewrite Hl. cbn [negb].
     rewrite Hp, Hok, Hn. destruct a as [|c0 a']; [contradiction|].
-    unfold lifetime in He. destruct (cache_control_max_age (r_cache_control r)).
+    unfold lifetime in He. destruct (cache_control_max_age (join_lines (r_cache_control r))).
     + subst e. reflexivity.
     + destruct (r_expires r); subst e; reflexivity.
 Qed.
 
 (* max-age is preferred: with a valid max-age directive, Expires plays no part *)
 Theorem max_age_preferred now ex ex' cc age :
-  cache_control_max_age cc = Some age ->
-  header_expiry now ex cc = wrap64 (age + now) /\ header_expiry now ex cc = header_expiry now ex' cc.
-Proof. intro H. unfold header_expiry. rewrite H. split; reflexivity. Qed.
+  cache_control_max_age (join_lines cc) = Some age ->
+  header_expiry now ex cc = sat_add age now /\ header_expiry now ex cc = header_expiry now ex' cc.
+Proof. intro H. unfold header_expiry, header_expiry_gen. rewrite H. split; reflexivity. Qed.
+
+(* the saturating sum is the exact sum whenever that fits, never wraps, never decreases *)
+Theorem sat_add_spec age now :
+  (sat_add age now = Z.min (age + now) max_i64)%Z.
+Proof. unfold sat_add. destruct (max_i64 - now <? age)%Z eqn:E; [apply Z.ltb_lt in E|apply Z.ltb_ge in E]; lia. Qed.
 
 Theorem expires_used_otherwise now ex cc :
-  cache_control_max_age cc = None ->
+  cache_control_max_age (join_lines cc) = None ->
   header_expiry now ex cc = match ex with Some e => e | None => 0%Z end.
-Proof. intro H. unfold header_expiry. rewrite H. reflexivity. Qed.
+Proof. intro H. unfold header_expiry, header_expiry_gen. rewrite H. reflexivity. Qed.
 
 (* which directive counts: the last comma-separated, space-trimmed one of the form
    max-age=<int64> (name in any letter case) *)
